@@ -386,6 +386,13 @@ fn c10_replay(sub: &str, case: &Value) -> Result<(), CaseFail> {
 
 const PROBE_BUDGET: u64 = 20_000;
 
+/// Executions longer than 400 steps are probed in a window of 400 steps; the window rotates over
+/// the executions of a shard (0, 300, 600, 900, 0, ...) so that late steps are visited as well.
+/// Deterministic: the sequence of executions in a shard is.
+fn probe_window() -> u64 {
+    (PROBE_ROT.fetch_add(1, std::sync::atomic::Ordering::Relaxed) % 4) * 300
+}
+
 fn classify_suspension(map: &FMap, pd: &Mutex<ProbeData>) {
     let d = unsafe { map.verif_dump() };
     let mut lock_held = false;
@@ -473,7 +480,7 @@ fn c12_probe(prog: &Prog, map: &Arc<FMap>, pd: Arc<Mutex<ProbeData>>) -> (ProbeS
         pd.lock().unwrap().obs.extend(obs);
         Ok(())
     });
-    (ProbeSel::Steps { threads: u32::MAX, every: 1 }, f)
+    (ProbeSel::Steps { threads: u32::MAX, every: 1, max: 400, from: probe_window() }, f)
 }
 
 fn probe_classes(out: &ConcOut) -> Vec<(&'static str, u64)> {
@@ -550,7 +557,7 @@ fn c07_probe(_prog: &Prog, map: &Arc<FMap>, pd: Arc<Mutex<ProbeData>>) -> (Probe
         pd.lock().unwrap().obs.push(ProbeObs::Iter { step, kind, yields: y });
         Ok(())
     });
-    (ProbeSel::Steps { threads: u32::MAX, every: 1 }, f)
+    (ProbeSel::Steps { threads: u32::MAX, every: 1, max: 400, from: probe_window() }, f)
 }
 
 fn c07_judge(prog: &Prog, out: &ConcOut) -> Result<(bool, Vec<(&'static str, u64)>), JudgeErr> {
@@ -588,6 +595,7 @@ pub const C07C: ConcCheck = ConcCheck { sub: "iter-probe", mix: Mix::PerKey, max
 pub const C07D: ConcCheck = ConcCheck { sub: "iter-probe-resize", mix: Mix::Resize, max_threads: 2, max_ops: 3, mk_probe: Some(c07_probe), ..C07B };
 pub const C07E: ConcCheck = ConcCheck { sub: "iter-probe-drain", mix: Mix::Drain, max_threads: 2, max_ops: 3, mk_probe: Some(c07_probe), ..C07B };
 pub const C07F: ConcCheck = ConcCheck { sub: "iter-drain", mix: Mix::Drain, max_threads: 3, max_ops: 3, ..C07B };
+pub const C07L: ConcCheck = ConcCheck { sub: "iter-long", mix: Mix::LongReaders, max_threads: 5, max_ops: 8, ..C07B };
 
 fn c07_shard(ctx: &Ctx, out: &mut ShardOut) {
     // (a) single thread: next() interleaved with mutations that complete whole resizes
@@ -611,6 +619,8 @@ fn c07_shard(ctx: &Ctx, out: &mut ShardOut) {
     };
     C07E.run(ctx, &pool, 11, ctx.share(ctx.by_tier(48, 300)) as u32, &db, out);
     C07F.run(ctx, &pool, 12, ctx.share(ctx.by_tier(48, 1_000)) as u32, &b, out);
+    let lb = Budget { single: 0, double: 0, coarse2: 0, tapes: ctx.by_tier(16, 100) as usize, tape_seed: ctx.shard_seed(97) };
+    C07L.run(ctx, &pool, 13, ctx.share(ctx.by_tier(96, 2_000)) as u32, &lb, out);
 }
 fn c07_replay(sub: &str, case: &Value) -> Result<(), CaseFail> {
     let b = budget_for(Tier::Thorough, 1);
@@ -625,6 +635,7 @@ fn c07_replay(sub: &str, case: &Value) -> Result<(), CaseFail> {
         "iter-probe-resize" => C07D.replay(&Pool::new(), case, &pb),
         "iter-probe-drain" => C07E.replay(&Pool::new(), case, &Budget { single: 300, double: 300, coarse2: 3000, tapes: 20, tape_seed: 1 }),
         "iter-drain" => C07F.replay(&Pool::new(), case, &b),
+        "iter-long" => C07L.replay(&Pool::new(), case, &Budget { single: 0, double: 0, coarse2: 0, tapes: 100, tape_seed: 1 }),
         _ => C07B.replay(&Pool::new(), case, &b),
     }
 }
@@ -886,7 +897,7 @@ fn c03_probe(prog: &Prog, map: &Arc<FMap>, pd: Arc<Mutex<ProbeData>>) -> (ProbeS
             None => Ok(()),
         }
     });
-    (ProbeSel::Steps { threads: u32::MAX, every: 1 }, f)
+    (ProbeSel::Steps { threads: u32::MAX, every: 1, max: 400, from: probe_window() }, f)
 }
 
 fn c03_judge(prog: &Prog, out: &ConcOut) -> Result<(bool, Vec<(&'static str, u64)>), JudgeErr> {
@@ -914,6 +925,7 @@ pub const C03K: ConcCheck = ConcCheck { sub: "refs-perkey", mix: Mix::PerKey, ..
 pub const C03R: ConcCheck = ConcCheck { sub: "refs-resize", mix: Mix::Resize, ..C03 };
 pub const C03P: ConcCheck = ConcCheck { sub: "refs-probe", mix: Mix::Readers, max_threads: 2, mk_probe: Some(c03_probe), ..C03 };
 pub const C03L: ConcCheck = ConcCheck { sub: "refs-long", mix: Mix::Long, max_threads: 8, max_ops: 10, ..C03 };
+pub const C03M: ConcCheck = ConcCheck { sub: "refs-long-readers", mix: Mix::LongReaders, max_threads: 5, max_ops: 8, ..C03 };
 
 const C03_OR: crate::seq::Oracles = crate::seq::Oracles { returns: true, quiescent: false, ledger: true, canary: true, capacity: false, cmp_bound: false, growth: false };
 
@@ -974,6 +986,7 @@ fn c03_shard(ctx: &Ctx, out: &mut ShardOut) {
     C03P.run(ctx, &pool, 6, ctx.share(ctx.by_tier(64, 400)) as u32, &pb, out);
     let lb = Budget { single: 0, double: 0, coarse2: 0, tapes: ctx.by_tier(16, 100) as usize, tape_seed: ctx.shard_seed(95) };
     C03L.run(ctx, &pool, 7, ctx.share(ctx.by_tier(64, 1_500)) as u32, &lb, out);
+    C03M.run(ctx, &pool, 8, ctx.share(ctx.by_tier(64, 1_500)) as u32, &lb, out);
     let _ = crate::alloc::drain_and_check();
     crate::alloc::enable(false);
 }
@@ -988,6 +1001,7 @@ fn c03_replay(sub: &str, case: &Value) -> Result<(), CaseFail> {
         "refs-perkey" => C03K.replay(&Pool::new(), case, &b),
         "refs-resize" => C03R.replay(&Pool::new(), case, &b),
         "refs-probe" => C03P.replay(&Pool::new(), case, &probe_budget(Tier::Thorough, 1)),
+        "refs-long-readers" => C03M.replay(&Pool::new(), case, &Budget { single: 0, double: 0, coarse2: 0, tapes: 100, tape_seed: 1 }),
         "refs-long" => C03L.replay(&Pool::new(), case, &Budget { single: 0, double: 0, coarse2: 0, tapes: 100, tape_seed: 1 }),
         _ => C03.replay(&Pool::new(), case, &b),
     };
